@@ -31,17 +31,20 @@ echo "== repository suite WITH the change" >> $LOG
 cargo test --workspace --no-fail-fast --offline 2>&1 | grep -E "^test result|FAILED|failed" | sort | uniq -c > $DST/suite.log; cat $DST/suite.log >> $LOG
 SUITE_FAILS=$(grep -c "FAILED\|[1-9][0-9]* failed" $DST/suite.log); rm -f $DST/suite.log
 echo "demo_with_change_exit=$WITH demo_without_change_exit=$WITHOUT suite_fail_lines=$SUITE_FAILS" | tee -a $LOG
-# run the checks against /repo with the change applied
-cd /verif
+# run the checks against /repo with the change applied (or, with EVAL_ROOT set, against the clone pair
+# $EVAL_ROOT/verif + $EVAL_ROOT/repo so that checks running in /verif itself are not disturbed)
+VROOT=/verif; RROOT=/repo
+if [ -n "${EVAL_ROOT:-}" ]; then VROOT=$EVAL_ROOT/verif; RROOT=$EVAL_ROOT/repo; export VERIF_REPO=$RROOT; fi
+cd $VROOT
 unset CARGO_TARGET_DIR RUSTFLAGS
 # the evidence files describe the unchanged tree: keep them out of the mutant runs
-EVBAK=$(mktemp -d /tmp/evbak.XXXXXX); cp -r /verif/evidence/. $EVBAK/
-git -C /repo apply $DST/patch.diff || { echo "patch does not apply to /repo" | tee -a $LOG; exit 3; }
+EVBAK=$(mktemp -d /tmp/evbak.XXXXXX); cp -r $VROOT/evidence/. $EVBAK/
+git -C $RROOT apply $DST/patch.diff || { echo "patch does not apply to $RROOT" | tee -a $LOG; exit 3; }
 RES=""
 for P in $PROPS; do
   OUTP=$(bin/check $P 2>&1 | tail -4); echo "== bin/check $P" >> $LOG; echo "$OUTP" >> $LOG
-  if echo "$OUTP" | grep -q "^VIOLATION"; then RES="$RES $P:VIOLATION"; V=$(echo "$OUTP" | grep "^VIOLATION" | head -1); RP=$(echo "$V" | sed 's/.*replay=\([^ ]*\).*/\1/'); cp /verif/$RP $DST/replay_$P.json 2>/dev/null; else RES="$RES $P:missed"; fi
+  if echo "$OUTP" | grep -q "^VIOLATION"; then RES="$RES $P:VIOLATION"; V=$(echo "$OUTP" | grep "^VIOLATION" | head -1); RP=$(echo "$V" | sed 's/.*replay=\([^ ]*\).*/\1/'); cp $VROOT/$RP $DST/replay_$P.json 2>/dev/null; else RES="$RES $P:missed"; fi
 done
-git -C /repo checkout -- . ; git -C /repo status --short | head -3
-cp -r $EVBAK/. /verif/evidence/; rm -rf $EVBAK
+git -C $RROOT checkout -- . ; git -C $RROOT status --short | head -3
+cp -r $EVBAK/. $VROOT/evidence/; rm -rf $EVBAK
 echo "checks:$RES" | tee -a $LOG
